@@ -425,7 +425,7 @@ pub fn run(a: &Args) -> Report {
     let mut rng = Rng::new(mix(a.seed, 0xc01 + a.shard));
     for _ in 0..n {
         let p = gen_params(&mut rng, a.quick());
-        scenario(&mut r, &p);
+        super::guarded(&mut r, params_json(&p), |r| scenario(r, &p));
         r.count("networks");
     }
     r
